@@ -17,12 +17,6 @@ Fixpoint sigma_of (nodes : archetypes) (reqs : list Generic) (args : list ident)
   | _, _ => []
   end.
 
-(* one field through the substitution, parameter by parameter *)
-Definition subst1 (s : FieldDef * Node) (br : ident * Node) : FieldDef * Node :=
-  if beq (n_typ (snd s)) (fst br) then (fst s, snd br) else s.
-Definition subst_field (sigma : list (ident * Node)) (s : FieldDef * Node) : FieldDef * Node :=
-  fold_left subst1 sigma s.
-
 Lemma replace_subs_map : forall b r subs, replace_subs b r subs = map (fun s => subst1 s (b, r)) subs.
 Proof. reflexivity. Qed.
 
